@@ -27,12 +27,36 @@ Contract (statement -> obligations)
     no exception on an LP with a finite optimum    C03/solve_lp_interior/ensures:returns-a-verdict
     tau' = 10 * eps * (n_total + ||x*||_2 + ||y*||_2) + 1e-9, (x*, y*) the oracle's exact optimal pair of the
     slack form (DESIGN "### C03"), eps = the solver's `eps` argument (default 1e-8).
+
+Input spaces (the same clauses are evaluated on all of them)
+  small scope     exhaustive -2..2 shapes + seeded structured random LPs up to 5x6, exact Fraction simplex oracle
+  size ladder     n + m around 30, 63, 64, 65, 100, 130, 200 (wide / square / tall; dense, sparse, packing, mixed sign,
+                  massively degenerate cones with ~90 % zero right-hand sides, duplicate / parallel / opposite rows,
+                  half-integer vertices; optimal / unbounded / infeasible).  The verdict is PLANTED
+                  (oracles/lp_planted.py: a primal-dual pair, a feasible point + improving ray, or a Farkas vector is
+                  constructed first and the LP around it) and proved by oracles.lp_exact.check_certificate in Fractions.
+  random-exact    unplanted random LPs (packing, cone, mixed) with n + m up to ~85 judged by the exact Fraction simplex
+                  (certificate re-validated) - so that nothing depends on the planting construction alone
+  history         sequences of calls in ONE process on the SAME c / A / b list objects (and the same row objects),
+                  rewritten in place between calls (single-entry edits, whole new LPs, rows / columns appended and
+                  deleted, the same call repeated, solve_lp and solve_lp_interior interleaved); every answer is judged
+                  against the oracle for the data as they are at that call, and the answers of chosen steps are compared
+                  with the answer a fresh interpreter gives for the same data
+  numerics        small structured LPs rescaled by powers of two (whole c, whole b, single rows, single columns;
+                  2^-10 .. 2^10) and shifted by dyadic gaps 2^-16 .. 2^-40 in the verdict-preserving directions
+                  (b relaxed, cost raised); A itself stays small-rational, so the LPs remain well scaled
 """
 from __future__ import annotations
 
+import hashlib
 import itertools
+import json
 import math
+import os
 import random
+import signal
+import subprocess
+import sys
 from collections import Counter
 from fractions import Fraction
 
@@ -409,6 +433,473 @@ def features(c, A, b, orc):
     return f
 
 
+# ================================================================================================ round-2 families
+class _Budget(BaseException):
+    """CPU-time budget of a guarded call used up (BaseException: must pass the `except Exception` around the solver)."""
+
+
+def _on_vtalrm(signum, frame):
+    raise _Budget()
+
+
+def guarded(seconds, fn, *args):
+    """fn(*args) under a CPU-time (not wall-clock) budget -> (result, False) or (None, True) when the budget ran out.
+    solve_lp always returns (max_iter), so a budget hit is never a violation: it is counted and excused like MAX_ITER.
+    Only there to keep a run against a cycling variant of the solver finite (the unchanged tree needs < 1/20 of it)."""
+    old = signal.signal(signal.SIGVTALRM, _on_vtalrm)
+    try:
+        try:
+            signal.setitimer(signal.ITIMER_VIRTUAL, seconds)
+            return fn(*args), False
+        finally:
+            signal.setitimer(signal.ITIMER_VIRTUAL, 0)
+    except _Budget:
+        return None, True
+    finally:
+        signal.signal(signal.SIGVTALRM, old)
+
+
+TALL = " [tall: m >= 1.2 n, n+m >= 24]"
+
+
+def shape_tag(n, m):
+    """Obligation suffix decided by the SHAPE of the input alone.  On tall, massively degenerate LPs the unchanged tree itself
+    loses the verdict to accumulated rounding (first seen at 11x15, 1-10 % of 17x46 .. 26x74 cones: triage/C03_round2.md);
+    filing tall round-2 cases under their own obligation name keeps that finding separable from anything found on the
+    square and wide instances of the same families (where the unchanged tree has not failed once)."""
+    return TALL if m >= 1.2 * n and n + m >= 24 else ""
+
+
+def cpu_budget(n, m):
+    t = n + m
+    return 40 if t <= 70 else 150 if t <= 135 else 600
+
+
+def _digest(c, A, b, minimize):
+    return hashlib.sha1(_key(c, A, b, minimize).encode()).hexdigest()[:20]
+
+
+def _nontrivial(c, b, minimize):
+    """Same rule as the small scope (the all-slack basis is not already optimal), decided from the data."""
+    return any(v < 0 for v in b) or any((v < 0) if minimize else (v > 0) for v in c)
+
+
+def cert_to_json(res):
+    ce = res["certificate"]
+    return {"status": res["status"], "certificate": {k: ([str(x) for x in v] if isinstance(v, list) else v) for k, v in ce.items()}}
+
+
+def cert_from_json(c, A, b, minimize, j):
+    """Rebuild an oracle answer from the certificate stored in a replay file; the certificate is re-validated."""
+    from oracles.lp_exact import check_certificate
+    ce = {k: ([Fraction(x) for x in v] if isinstance(v, list) else v) for k, v in j["certificate"].items()}
+    st = j["status"]
+    x = ce.get("x")
+    res = {"status": st, "x": x if st != "infeasible" else None,
+           "objective": sum((Fraction(a) * v for a, v in zip(c, x)), Fraction(0)) if st == "optimal" else None,
+           "certificate": ce, "stats": {"planted": True}}
+    check_certificate(c, A, b, minimize, res)
+    return res
+
+
+# ---------------------------------------------------------------------------------------- size ladder (planted)
+LADDER_STYLES_OPT = ("dense-packing", "dense-packing", "dense-mostly-pos", "dense-mixed", "sparse", "degenerate", "cone",
+                     "dup-ties", "equalities", "half-integers")
+LADDER_STYLES_UNB = ("cone", "cone", "degenerate", "dense-mixed", "sparse", "dup-ties")
+LADDER_STYLES_INF = ("dense-mixed", "degenerate", "sparse", "dup-ties", "cone", "dense-mostly-pos")
+HEAVY_STYLES = ("cone", "degenerate")  # thousands of degenerate Bland pivots at n + m >= 130: thorough tier only there
+
+
+def ladder_shapes(T):
+    q = max(2, round(T / 4))
+    return [(T - q, q), (T // 2, T - T // 2), (q, T - q), (T - q - 1, q + 1), (T // 2 + 1, T - T // 2 - 1), (q + 1, T - q - 1)]
+
+
+def ladder_specs(seed, plan, interior_plan, quick):
+    """plan: [(T, count)] for solve_lp; interior_plan: [(T, count, wide_only)] (those also go through solve_lp)."""
+    specs = []
+    for T, count in plan:
+        shapes = ladder_shapes(T)
+        for k in range(count):
+            r = k % 10
+            truth = "optimal" if r < 6 else "unbounded" if r < 8 else "infeasible"
+            pool = {"optimal": LADDER_STYLES_OPT, "unbounded": LADDER_STYLES_UNB, "infeasible": LADDER_STYLES_INF}[truth]
+            if quick and T >= 130:
+                pool = tuple(s for s in pool if s not in HEAVY_STYLES)
+            style = random.Random(f"{seed}/ladder-style/{T}/{k}").choice(pool)
+            n, m = shapes[(k // 3) % len(shapes)]
+            specs.append({"T": T, "n": n, "m": m, "truth": truth, "style": style, "seed": f"{seed}/ladder/{T}/{k}", "interior": False})
+    for T, count, wide_only in interior_plan:
+        shapes = ladder_shapes(T)
+        if wide_only:
+            shapes = [(T - max(2, T // 10), max(2, T // 10))]
+        for k in range(count):
+            r = k % 5
+            truth = "optimal" if r < 3 else "unbounded" if r < 4 else "infeasible"
+            pool = {"optimal": LADDER_STYLES_OPT, "unbounded": LADDER_STYLES_UNB, "infeasible": LADDER_STYLES_INF}[truth]
+            if quick and T >= 130:
+                pool = tuple(s for s in pool if s not in HEAVY_STYLES)
+            style = random.Random(f"{seed}/ladder-ip-style/{T}/{k}").choice(pool)
+            n, m = shapes[k % len(shapes)]
+            specs.append({"T": T, "n": n, "m": m, "truth": truth, "style": style, "seed": f"{seed}/ladder-ip/{T}/{k}", "interior": True})
+    return specs
+
+
+def ladder_cost(sp):
+    t = sp["n"] + sp["m"]
+    base = (t / 64.0) ** 3 * 0.06 * (4 if sp["style"] in HEAVY_STYLES else 1)
+    if sp["interior"]:
+        base += (t / 64.0) ** 3 * 1.2 * (sp["m"] / (t / 2.0)) ** 2
+    return base
+
+
+def run_ladder(sp):
+    from oracles.lp_planted import plant
+    rng = random.Random(sp["seed"])
+    c, A, b, mn, res = plant(rng, sp["truth"], sp["n"], sp["m"], sp["style"])
+    return judge_large(c, A, b, mn, res, "ladder", {"style": sp["style"], "planted": sp["truth"], "seed": sp["seed"]},
+                       f"T~{sp['T']}", sp["interior"])
+
+
+def judge_large(c, A, b, mn, res, family, gen, tag, interior):
+    cnt = Counter()
+    viol = []
+    n, m = len(c), len(b)
+    cnt[f"feature:{family}:truth:{res['status']}"] += 1
+    cnt[f"feature:{family}:style:{gen.get('style') or gen.get('kind')}"] += 1
+    if any(v < 0 for v in b):
+        cnt[f"feature:{family}:neg-rhs/phase1"] += 1
+    if 10 * sum(1 for v in b if v == 0) >= 8 * m:
+        cnt[f"feature:{family}:>=80%-zero-rhs"] += 1
+    if n + m >= 64:
+        cnt[f"feature:{family}:n+m>=64"] += 1
+    if n + m >= 128:
+        cnt[f"feature:{family}:n+m>=128"] += 1
+
+    def case(fn):
+        return {"fn": fn, "family": family, "gen": gen, "c": c, "A": A, "b": b, "minimize": mn, "opts": {}, "oracle": cert_to_json(res)}
+
+    n_eval = 1
+    out, hit = guarded(cpu_budget(n, m), eval_simplex, c, A, b, mn, {}, res)
+    if hit:
+        cnt[f"{family}:solve_lp:{tag}:{res['status']}->CPU-BUDGET"] += 1
+        cnt["cpu_budget_excused"] += 1
+    else:
+        bad, st = out
+        cnt[f"{family}:solve_lp:{tag}:{res['status']}->{st}"] += 1
+        for ob, det in bad:
+            viol.append((ob + shape_tag(n, m), case("solve_lp"), _short(f"[{family} {n}x{m} {gen}] " + det, 1600)))
+    if interior:
+        bad, st = eval_interior(c, A, b, mn, {}, res)
+        n_eval += 1
+        cnt[f"{family}:interior:{tag}:{res['status']}->{st}"] += 1
+        for ob, det in bad:
+            viol.append((ob, case("solve_lp_interior"), _short(f"[{family} {n}x{m} {gen}] " + det, 1600)))
+    nt = _digest(c, A, b, mn) if _nontrivial(c, b, mn) else None
+    return viol, cnt, nt, n_eval
+
+
+# ---------------------------------------------------------------------------------------- unplanted, exact oracle
+def gen_random_exact(rng, kind, n, m):
+    if kind == "packing":
+        A = [[rng.choice((0, 0, 1, 1, 2, 3)) for _ in range(n)] for _ in range(m)]
+        b = [rng.randint(4, 30) for _ in range(m)]
+        w = [-rng.randint(1, 9) for _ in range(n)]
+    elif kind == "cone":  # massively degenerate: ~90 % zero right-hand sides, optimal (at 0 or near) or unbounded
+        A = [[rng.randint(-3, 3) for _ in range(n)] for _ in range(m)]
+        zero = rng.choice((0.6, 0.9, 0.9, 1.0))
+        b = [0 if rng.random() < zero else rng.randint(1, 3) for _ in range(m)]
+        w = [rng.randint(-3, 3) for _ in range(n)]
+    elif kind == "cone-pos":  # as cone, but the cost is pushed up so that more of them have a finite optimum away from 0 ... or at it
+        A = [[rng.randint(-3, 3) for _ in range(n)] for _ in range(m)]
+        b = [0 if rng.random() < 0.9 else rng.randint(1, 3) for _ in range(m)]
+        w = [rng.randint(-1, 4) for _ in range(n)]
+    else:  # mixed: negative right-hand sides, any verdict
+        A = [[rng.randint(-3, 4) if rng.random() < 0.8 else 0 for _ in range(n)] for _ in range(m)]
+        b = [rng.randint(-3, 12) for _ in range(m)]
+        w = [rng.randint(-3, 4) for _ in range(n)]
+    mn = rng.random() < 0.5
+    return (w if mn else [-v for v in w]), A, b, mn
+
+
+def run_rexact(sp):
+    rng = random.Random(sp["seed"])
+    c, A, b, mn = gen_random_exact(rng, sp["kind"], sp["n"], sp["m"])
+    res = oracle(c, A, b, mn)
+    return judge_large(c, A, b, mn, res, "random-exact", {"kind": sp["kind"], "seed": sp["seed"]}, sp["kind"], sp.get("interior", False))
+
+
+def rexact_specs(seed, plan):
+    specs = []
+    for kind, shapes, count in plan:
+        for k in range(count):
+            n, m = shapes[k % len(shapes)]
+            specs.append({"kind": kind, "n": n, "m": m, "seed": f"{seed}/rexact/{kind}/{n}x{m}/{k}", "interior": k % 25 == 0 and n + m <= 50})
+    return specs
+
+
+def rexact_cost(sp):
+    t = sp["n"] + sp["m"]
+    return (t / 64.0) ** 3.5 * (0.6 if sp["kind"].startswith("cone") else 0.25)
+
+
+# ---------------------------------------------------------------------------------------- history mode
+def write_into(c, A, b, nc, nA, nb):
+    """Overwrite the persistent argument objects with a new LP IN PLACE: c, A, b and every surviving row keep their identity."""
+    c[:] = nc
+    b[:] = nb
+    for i in range(min(len(A), len(nA))):
+        A[i][:] = nA[i]
+    if len(A) > len(nA):
+        del A[len(nA):]
+    else:
+        for i in range(len(A), len(nA)):
+            A.append(list(nA[i]))
+
+
+def _small_edit(rng, c, A, b, mn):
+    """A copy of the LP with one local change (what a caller does between two solves of 'the same' model)."""
+    c, A, b = list(c), [list(r) for r in A], list(b)
+    n, m = len(c), len(b)
+    vals = (-3, -2, -1, 0, 0, 1, 1, 2, 3, 0.5, -0.5, 1.5)
+    op = rng.choice(("A", "A", "b", "b", "c", "c", "sense", "add-row", "add-col", "del-row", "del-col", "swap-rows", "negate-row", "dup-row"))
+    if op == "A":
+        A[rng.randrange(m)][rng.randrange(n)] = rng.choice(vals)
+    elif op == "b":
+        b[rng.randrange(m)] = rng.choice(vals)
+    elif op == "c":
+        c[rng.randrange(n)] = rng.choice(vals)
+    elif op == "sense":
+        mn = not mn
+    elif op == "add-row" and m < 6:
+        A.append([rng.choice(vals) for _ in range(n)])
+        b.append(rng.choice(vals))
+    elif op == "add-col" and n < 6:
+        for r in A:
+            r.append(rng.choice(vals))
+        c.append(rng.choice(vals))
+    elif op == "del-row" and m > 1:
+        i = rng.randrange(m)
+        del A[i]
+        del b[i]
+    elif op == "del-col" and n > 1:
+        j = rng.randrange(n)
+        for r in A:
+            del r[j]
+        del c[j]
+    elif op == "swap-rows" and m > 1:
+        i, j = rng.sample(range(m), 2)
+        A[i], A[j] = A[j], A[i]
+        b[i], b[j] = b[j], b[i]
+    elif op == "negate-row":
+        i = rng.randrange(m)
+        A[i] = [-v for v in A[i]]
+        b[i] = -b[i]
+    elif op == "dup-row" and m > 1:
+        i, j = rng.sample(range(m), 2)
+        A[j] = list(A[i])
+        b[j] = b[i]
+    else:
+        b[rng.randrange(m)] = rng.choice(vals)
+    return c, A, b, mn
+
+
+def history_steps(sp):
+    """The sequence of LPs (plain data) and calls of one history; the oracle answer of a planted step rides along."""
+    rng = random.Random(sp["seed"])
+    steps = []
+    if sp["mode"] == "small":
+        _, c, A, b, mn = gen_case(rng)
+        for k in range(sp["len"]):
+            r = rng.random()
+            if k and r < 0.25:
+                pass  # the very same call again
+            elif k and r < 0.75:
+                c, A, b, mn = _small_edit(rng, c, A, b, mn)
+            elif k:
+                _, c, A, b, mn = gen_case(rng)
+            fn = "solve_lp" if rng.random() < 0.8 else "solve_lp_interior"
+            opts = {}
+            if fn == "solve_lp" and rng.random() < 0.1:
+                opts = {"max_iter": rng.choice((1, 2, 3, 50))}
+            steps.append({"fn": fn, "c": list(c), "A": [list(r) for r in A], "b": list(b), "minimize": mn, "opts": opts})
+    else:  # planted LPs of one shape pushed through the same objects, with certificate-preserving edits in between
+        from oracles.lp_planted import plant
+        n, m = sp["n"], sp["m"]
+        cur = None
+        for k in range(sp["len"]):
+            r = rng.random()
+            if cur is not None and r < 0.3:
+                pass
+            elif cur is not None and r < 0.6 and cur[4]["status"] != "infeasible":
+                c, A, b, mn, res = cur
+                b = list(b)
+                xs = res["certificate"]["x"]
+                slack_rows = [i for i in range(m) if sum((Fraction(a) * v for a, v in zip(A[i], xs)), Fraction(0)) < Fraction(b[i])]
+                for i in rng.sample(slack_rows, min(len(slack_rows), 3)):
+                    b[i] += rng.randint(1, 3)  # a row that is slack at the planted point is relaxed: every certificate stays valid
+                cur = (c, A, b, mn, res)
+            else:
+                truth = rng.choice(("optimal", "optimal", "unbounded", "infeasible"))
+                style = rng.choice({"optimal": LADDER_STYLES_OPT, "unbounded": LADDER_STYLES_UNB, "infeasible": LADDER_STYLES_INF}[truth])
+                cur = plant(rng, truth, n, m, style)
+            c, A, b, mn, res = cur
+            steps.append({"fn": "solve_lp", "c": list(c), "A": [list(r) for r in A], "b": list(b), "minimize": mn, "opts": {}, "oracle": cert_to_json(res)})
+    return steps
+
+
+_FRESH = r"""
+import json, os, sys
+sys.path.insert(0, os.environ.get("VERIF_REPO", "/repo"))
+st = json.load(sys.stdin)
+from solvor.simplex import solve_lp
+from solvor.interior_point import solve_lp_interior
+try:
+    r = (solve_lp if st["fn"] == "solve_lp" else solve_lp_interior)(st["c"], st["A"], st["b"], minimize=st["minimize"], **st["opts"])
+    print(json.dumps([r.status.name, list(r.solution), r.objective, r.iterations]))
+except Exception as e:
+    print(json.dumps(["EXC", repr(e), None, None]))
+"""
+
+
+def fresh_answer(step):
+    env = dict(os.environ, PYTHONDONTWRITEBYTECODE="1", PYTHONHASHSEED="0", PYTHONWARNINGS="ignore")
+    p = subprocess.run([sys.executable, "-c", _FRESH], input=json.dumps({k: step[k] for k in ("fn", "c", "A", "b", "minimize", "opts")}),
+                       capture_output=True, text=True, env=env)
+    if p.returncode != 0:
+        return ["CHILD-FAILED", p.stderr[-300:], None, None]
+    return json.loads(p.stdout.strip().splitlines()[-1])
+
+
+def play_history(steps, compare_at=(), stop_at_first=False):
+    """Run the calls of `steps` in this process on ONE set of argument objects. -> (violations [(ob, upto, detail)], Counter, n_eval)."""
+    from solvor.simplex import solve_lp
+    c, A, b = [], [], []
+    viol, cnt, n_eval = [], Counter(), 0
+    for k, st in enumerate(steps):
+        write_into(c, A, b, st["c"], st["A"], st["b"])
+        orc = cert_from_json(st["c"], st["A"], st["b"], st["minimize"], st["oracle"]) if "oracle" in st else oracle(st["c"], st["A"], st["b"], st["minimize"])
+        if st["fn"] == "solve_lp":
+            out, hit = guarded(cpu_budget(len(c), len(b)), eval_simplex, c, A, b, st["minimize"], st["opts"], orc)
+            bad, name = out if not hit else ([], "CPU-BUDGET")
+        else:
+            bad, name = eval_interior(c, A, b, st["minimize"], st["opts"], orc)
+        n_eval += 1
+        same = k > 0 and all(steps[k - 1][f] == st[f] for f in ("c", "A", "b", "minimize"))
+        cnt[f"history:{st['fn']}{'[max_iter]' if 'max_iter' in st['opts'] else ''}:{'repeat' if same else 'edited'}:{orc['status']}->{name}"] += 1
+        if c != st["c"] or A != st["A"] or b != st["b"]:
+            cnt["history:solver-modified-its-arguments"] += 1
+        for ob, det in bad:
+            viol.append((ob + (shape_tag(len(c), len(b)) if st["fn"] == "solve_lp" else ""), k,
+                         _short(f"[history step {k + 1}/{len(steps)}, same argument objects since step 1] " + det, 1600)))
+        if k in compare_at and st["fn"] == "solve_lp" and name not in ("EXC", "CPU-BUDGET"):
+            r, hit = guarded(cpu_budget(len(c), len(b)), lambda: solve_lp(c, A, b, minimize=st["minimize"], **st["opts"]))  # noqa: B023
+            if hit:
+                continue
+            here = [r.status.name, list(r.solution), r.objective, r.iterations]
+            there = fresh_answer(st)
+            n_eval += 1
+            if here == there:
+                cnt["history:identical-to-fresh-process"] += 1
+            else:
+                cnt["history:differs-from-fresh-process"] += 1
+                mx = max([abs(_fr(v)) for v in st["c"]] + [abs(_fr(v)) for r_ in st["A"] for v in r_] + [abs(_fr(v)) for v in st["b"]])
+                tau = 1e-6 * (1 + float(mx))
+                if there[0] in ("CHILD-FAILED",):
+                    cnt["history:fresh-process-failed"] += 1
+                elif here[0] != there[0] and "MAX_ITER" not in (here[0], there[0]) or \
+                        (here[0] == there[0] == "OPTIMAL" and abs(here[2] - there[2]) > 2 * tau):
+                    viol.append((f"{P}/ensures:verdict-is-a-function-of-the-LP", k,
+                                 f"[history step {k + 1}] in this process (after {k} earlier calls on the same objects): {here[0]} objective={here[2]}; "
+                                 f"a fresh interpreter on the same data: {there[0]} objective={there[2]}; truth: {orc['status']} {orc['objective']}"))
+        if viol and stop_at_first:
+            break
+    return viol, cnt, n_eval
+
+
+def run_history(sp):
+    steps = history_steps(sp)
+    cmp_at = {len(steps) - 1, random.Random(sp["seed"] + "/cmp").randrange(len(steps))} if sp.get("fresh") else set()
+    hv, cnt, n_eval = play_history(steps, cmp_at)
+    viol = []
+    for ob, k, det in hv[:3]:
+        viol.append((ob, {"fn": "history", "family": "history", "gen": {"mode": sp["mode"], "seed": sp["seed"]}, "steps": steps[: k + 1],
+                          "c": steps[k]["c"], "A": steps[k]["A"], "b": steps[k]["b"], "minimize": steps[k]["minimize"], "opts": steps[k]["opts"]}, det))
+    nts = [_digest(s["c"], s["A"], s["b"], s["minimize"]) for s in steps if _nontrivial(s["c"], s["b"], s["minimize"])]
+    cnt["feature:history:sequences"] += 1
+    return viol, cnt, nts, n_eval
+
+
+# ---------------------------------------------------------------------------------------- dyadic numerics
+GAPS = (16, 20, 24, 30, 36, 40)
+
+
+def gen_numeric(rng):
+    """A small structured LP (gen_case) pushed to the fine-grained end of what 'well scaled, small rational data' covers:
+    exact power-of-two rescalings and dyadic shifts of b (relaxing) and of the cost (raising) - A keeps its small entries
+    up to the row / column scale, so no near-parallel rows and no near-singular bases are manufactured."""
+    kind, c, A, b, mn = gen_case(rng)
+    n, m = len(c), len(b)
+    c = [Fraction(v) for v in c]
+    A = [[Fraction(v) for v in r] for r in A]
+    b = [Fraction(v) for v in b]
+    ops = []
+    r = rng.random()
+    if r < 0.45 or rng.random() < 0.3:
+        p = rng.choice(GAPS)
+        g = Fraction(1, 2 ** p)
+        for i in range(m):
+            if rng.random() < 0.5:
+                b[i] += g * rng.choice((1, 1, 2, 3))  # relax
+        for j in range(n):
+            if rng.random() < 0.4:
+                c[j] += (g if mn else -g) * rng.choice((1, 1, 2, 3))  # raise the minimised cost
+        ops.append(f"gap2^-{p}")
+    if r >= 0.45 or rng.random() < 0.3:
+        which = rng.choice(("c", "b", "rows", "cols", "all"))
+        if which in ("c", "all"):
+            k = rng.randint(-10, 10)
+            c = [v * Fraction(2) ** k for v in c]
+            ops.append(f"c*2^{k}")
+        if which in ("b", "all"):
+            k = rng.randint(-10, 10)
+            b = [v * Fraction(2) ** k for v in b]  # = scaling every x_j by 2^k
+            ops.append(f"b*2^{k}")
+        if which in ("rows", "all"):
+            for i in range(m):
+                k = rng.randint(-6, 6)
+                A[i] = [v * Fraction(2) ** k for v in A[i]]
+                b[i] *= Fraction(2) ** k
+            ops.append("rows*2^[-6..6]")
+        if which in ("cols",):
+            for j in range(n):
+                k = rng.randint(-6, 6)
+                for i in range(m):
+                    A[i][j] *= Fraction(2) ** k
+                c[j] *= Fraction(2) ** k
+            ops.append("cols*2^[-6..6]")
+    fl = rng.random() < 0.3
+    return (kind + "|" + ",".join(ops), [_num(v, fl) for v in c], [[_num(v, fl) for v in row] for row in A], [_num(v, fl) for v in b], mn)
+
+
+def run_numeric(sp):
+    rng = random.Random(sp["seed"])
+    out = []
+    for _ in range(sp["count"]):
+        kind, c, A, b, mn = gen_numeric(rng)
+        assert all(Fraction(v) == Fraction(float(v)) for v in itertools.chain(c, b, *A)), "numeric data must be exact in binary64"
+        v, cnt, nt, ne = run_case(c, A, b, mn, [{}], [{}] if rng.random() < sp["p_interior"] else [])
+        for t in v:
+            t[1]["family"] = "numerics"
+            t[1]["gen"] = {"kind": kind}
+        k2 = Counter({("numerics:" + k): n_ for k, n_ in cnt.items() if not k.startswith("feature:")})
+        k2["feature:numerics:" + ("gap" if "gap" in kind else "scaled-only")] += 1
+        k2["feature:numerics:truth:" + next(k[14:] for k in cnt if k.startswith("feature:truth:"))] += 1
+        out.append((v, k2, nt, ne))
+    return out
+
+
+
 # ================================================================================================ worker
 def run_case(c, A, b, minimize, s_opts, i_opts):
     """-> (violations [(obligation, case, detail)], Counter, nontrivial key or None, n_eval)."""
@@ -436,23 +927,35 @@ def run_case(c, A, b, minimize, s_opts, i_opts):
 
 
 def work(chunk):
-    """chunk = ('exh', n, m, [(idx, minimize, do_interior)...]) or ('cases', [(c, A, b, minimize, s_opts, i_opts)...])."""
+    """chunk = ('exh', n, m, [(idx, minimize, do_interior)...]) or ('cases', [(c, A, b, minimize, s_opts, i_opts)...])
+    or ('ladder' | 'rexact' | 'history' | 'numeric', [spec...]) - those build their inputs from the spec's seed in the worker."""
     use_repo()
     viol, cnt, nts, n_eval = [], Counter(), [], 0
     if chunk[0] == "exh":
         _, n, m, items = chunk
-        it = ((*decode(n, m, idx), mn, [{}], [{}] if di else []) for idx, mn, di in items)
+        it = (run_case(*decode(n, m, idx), mn, [{}], [{}] if di else []) for idx, mn, di in items)
+    elif chunk[0] == "cases":
+        it = (run_case(*t) for t in chunk[1])
+    elif chunk[0] == "ladder":
+        it = (run_ladder(sp) for sp in chunk[1])
+    elif chunk[0] == "rexact":
+        it = (run_rexact(sp) for sp in chunk[1])
+    elif chunk[0] == "history":
+        it = (run_history(sp) for sp in chunk[1])
+    elif chunk[0] == "numeric":
+        it = (r for sp in chunk[1] for r in run_numeric(sp))
     else:
-        it = chunk[1]
-    for c, A, b, mn, so, io in it:
-        v, k, nt, ne = run_case(c, A, b, mn, so, io)
+        raise ValueError(chunk[0])
+    for v, k, nt, ne in it:
         viol.extend(v)
         cnt["violations"] += len(v)
         for ob, _, _ in v:
             cnt["violated:" + ob] += 1
         cnt.update(k)
         n_eval += ne
-        if nt:
+        if isinstance(nt, list):
+            nts.extend(nt)
+        elif nt:
             nts.append(nt)
     if len(viol) > 8:  # keep the 8 smallest per obligation; the totals are in cnt
         by = {}
@@ -548,6 +1051,71 @@ def run(ctx: Ctx):
               kinds=dict(kinds), solve_lp_interior_default_runs=RI, solve_lp_max_iter_limited_runs="~%d (max_iter in 1,2,3,5)" % RB,
               solve_lp_interior_option_runs="~%d (max_iter in 0,1,2,5,20,30; eps 1e-6)" % RIB, exhaustive=False)
 
+    # ---- round-2 families: size ladder (planted), unplanted random with the exact oracle, history mode, dyadic numerics
+    if q:
+        lplan = [(30, 300), (63, 150), (64, 200), (65, 150), (100, 100), (130, 40), (200, 16)]
+        iplan = [(30, 40, False), (64, 16, False), (100, 4, False), (130, 2, False), (200, 2, True)]
+        rplan = [("packing", [(20, 10), (15, 15), (10, 20)], 90),
+                 ("packing", [(50, 14), (47, 16), (32, 32), (40, 24), (33, 32), (32, 31), (48, 17)], 120),
+                 ("packing", [(50, 29), (60, 19), (40, 40), (45, 40)], 60),
+                 ("cone", [(12, 12), (15, 15), (20, 20), (20, 15)], 100), ("cone", [(25, 25), (22, 28)], 60), ("cone", [(30, 30), (32, 32)], 30),
+                 ("cone-pos", [(20, 20), (25, 25)], 40),
+                 ("mixed", [(15, 15), (10, 20), (20, 10)], 90), ("mixed", [(32, 32), (40, 24), (24, 40)], 40)]
+        hplan = dict(small=200, small_len=8, fresh=40, planted=[(20, 10), (40, 24), (32, 32), (50, 20), (10, 20), (33, 32), (16, 48), (20, 10)], planted_len=5)
+        NUM, NUM_PI = 8000, 0.05
+    else:
+        lplan = [(30, 1500), (63, 800), (64, 1000), (65, 800), (100, 500), (130, 250), (200, 120), (260, 24)]
+        iplan = [(30, 300, False), (64, 100, False), (100, 30, False), (130, 12, False), (200, 8, True)]
+        rplan = [("packing", [(20, 10), (15, 15), (10, 20)], 500),
+                 ("packing", [(50, 14), (47, 16), (32, 32), (40, 24), (33, 32), (32, 31), (48, 17)], 700),
+                 ("packing", [(50, 29), (60, 19), (40, 40), (45, 40)], 400), ("packing", [(60, 40), (50, 50)], 40),
+                 ("cone", [(12, 12), (15, 15), (20, 20), (20, 15)], 600), ("cone", [(25, 25), (22, 28)], 400), ("cone", [(30, 30), (32, 32)], 200),
+                 ("cone", [(40, 40)], 30), ("cone-pos", [(20, 20), (25, 25), (30, 30)], 300),
+                 ("mixed", [(15, 15), (10, 20), (20, 10)], 500), ("mixed", [(32, 32), (40, 24), (24, 40)], 300), ("mixed", [(50, 50)], 30)]
+        hplan = dict(small=2000, small_len=10, fresh=200, planted=[(20, 10), (40, 24), (32, 32), (50, 20), (10, 20), (33, 32), (16, 48), (64, 20)] * 8 + [(65, 65), (100, 30)], planted_len=6)
+        NUM, NUM_PI = 80000, 0.05
+    lspecs = ladder_specs(ctx.seed, lplan, iplan, q)
+    rspecs = rexact_specs(ctx.seed, rplan)
+    hspecs = [{"mode": "small", "len": hplan["small_len"], "seed": f"{ctx.seed}/history/small/{k}", "fresh": k < hplan["fresh"]} for k in range(hplan["small"])]
+    hspecs += [{"mode": "planted", "n": n_, "m": m_, "len": hplan["planted_len"], "seed": f"{ctx.seed}/history/planted/{k}", "fresh": k % 4 == 0}
+               for k, (n_, m_) in enumerate(hplan["planted"])]
+    nspecs = [{"seed": f"{ctx.seed}/numeric/{k}", "count": 200, "p_interior": NUM_PI} for k in range(NUM // 200)]
+
+    def pack(kind, specs, cost, target=1.5):
+        """the expensive instances first and alone, the cheap ones grouped: keeps the pool balanced"""
+        out, cur, acc = [], [], 0.0
+        for sp in sorted(specs, key=cost, reverse=True):
+            cur.append(sp)
+            acc += cost(sp)
+            if acc >= target:
+                out.append((acc, (kind, cur)))
+                cur, acc = [], 0.0
+        if cur:
+            out.append((acc, (kind, cur)))
+        return out
+
+    big = pack("ladder", lspecs, ladder_cost) + pack("rexact", rspecs, rexact_cost)
+    big.sort(key=lambda t: -t[0])
+    hist_tasks = [("history", ch) for ch in _chunks([h for h in hspecs if h["mode"] == "planted"], 2)] + \
+                 [("history", ch) for ch in _chunks([h for h in hspecs if h["mode"] == "small"], 10)]
+    tasks = [t for _, t in big] + hist_tasks + tasks + [("numeric", [sp]) for sp in nspecs]
+    by_T = Counter((sp["T"], "solve_lp+interior" if sp["interior"] else "solve_lp") for sp in lspecs)
+    ctx.scope("size ladder: planted LPs (verdict by construction, certificate checked in Fractions)",
+              runs=len(lspecs), n_plus_m={f"~{T} ({fn})": v for (T, fn), v in sorted(by_T.items())},
+              shapes="wide (n ~ 3m), square, tall (m ~ 3n), each also shifted by one", styles=sorted(set(sp["style"] for sp in lspecs)),
+              planted_verdicts=dict(Counter(sp["truth"] for sp in lspecs)), data="integers (|a_ij| <= ~8), right-hand sides k/2 in the half-integer style",
+              heavy_styles_excluded_in_quick_at_n_plus_m_ge_130=list(HEAVY_STYLES) if q else [], exhaustive=False)
+    ctx.scope("unplanted random LPs judged by the exact Fraction simplex (certificate re-validated)", runs=len(rspecs),
+              kinds={f"{k} {shapes}": cnt_ for k, shapes, cnt_ in rplan}, exhaustive=False)
+    ctx.scope("history mode: one process, the same c/A/b/row list objects rewritten in place between calls", sequences=len(hspecs),
+              small_sequences=hplan["small"], calls_per_small_sequence=hplan["small_len"], planted_sequences=len(hplan["planted"]),
+              calls_per_planted_sequence=hplan["planted_len"], planted_shapes=sorted(set(hplan["planted"])),
+              edits="repeat the call / change one entry of A, b or c / flip the sense / append or delete a row or column / swap, negate, duplicate rows / a whole new LP; "
+                    "planted: relax slack rows (certificate stays valid) / a new planted LP of the same shape",
+              fresh_process_comparisons="2 steps of %d sequences" % (hplan["fresh"] + len([h for h in hspecs if h["mode"] == "planted" and h["fresh"]])), exhaustive=False)
+    ctx.scope("dyadic numerics on small structured LPs (exact oracle)", runs=NUM, gaps="2^-p, p in %s, added to b (relaxing) and to the minimised cost (raising)" % (GAPS,),
+              scalings="c or b by 2^k (|k| <= 10), single rows / columns by 2^k (|k| <= 6)", solve_lp_interior_share=NUM_PI, exhaustive=False)
+
     results = pmap(work, tasks, chunksize=1)
     cnt = Counter()
     n_eval = 0
@@ -569,7 +1137,22 @@ def run(ctx: Ctx):
     ctx.notes["outcome_counts"] = {k: v for k, v in sorted(cnt.items()) if not k.startswith("feature:") and not k.startswith("violat")}
     ctx.notes["feature_counts"] = {k[8:]: v for k, v in sorted(cnt.items()) if k.startswith("feature:")}
     ctx.notes["violation_counts"] = {k: v for k, v in sorted(cnt.items()) if k.startswith("violat")}
-    ctx.notes["solve_lp_MAX_ITER_excused_default_budget"] = sum(v for k, v in cnt.items() if k.startswith("solve_lp:") and k.endswith("->MAX_ITER"))
+    ctx.notes["solve_lp_MAX_ITER_excused_default_budget"] = sum(v for k, v in cnt.items() if "solve_lp:" in k and k.endswith("->MAX_ITER"))
+    ctx.notes["solve_lp_cpu_budget_excused"] = cnt.get("cpu_budget_excused", 0)
+    # non-vacuity of the round-2 families
+    for fam in ("ladder", "random-exact"):
+        for t in ("optimal", "infeasible", "unbounded"):
+            if not cnt.get(f"feature:{fam}:truth:{t}"):
+                ctx.defects.append(f"{fam}: no LP was {t}")
+        for f in ("n+m>=64", "neg-rhs/phase1", ">=80%-zero-rhs"):
+            if not cnt.get(f"feature:{fam}:{f}"):
+                ctx.defects.append(f"{fam}: feature {f} never occurred")
+    if not cnt.get("feature:ladder:n+m>=128"):
+        ctx.defects.append("ladder: no LP with n+m >= 128")
+    if not cnt.get("history:identical-to-fresh-process") and not cnt.get("history:differs-from-fresh-process"):
+        ctx.defects.append("history: no fresh-process comparison was made")
+    if cnt.get("history:fresh-process-failed"):
+        ctx.defects.append(f"history: the fresh interpreter failed {cnt['history:fresh-process-failed']} times")
     # non-vacuity of the interior-point OPTIMAL / FEASIBLE clauses and of every truth class
     for sense in ("min", "max"):
         for st in ("OPTIMAL", "FEASIBLE"):
@@ -583,7 +1166,14 @@ def run(ctx: Ctx):
                 + ", ".join(KINDS) + " (degenerate vertices, parallel/duplicate/opposite rows, zero rows/columns, negative rhs, "
                 "ratio-test ties, bound rows, contradictory rows). One evaluation = one solver call judged against the exact oracle. "
                 "non-trivial = the exact oracle needed >= 1 pivot (the all-slack basis is not already optimal: includes every "
-                "infeasible LP, every LP needing phase 1 and every unbounded LP); distinct = different (minimize, c, A, b)")
+                "infeasible LP, every LP needing phase 1 and every unbounded LP); distinct = different (minimize, c, A, b). "
+                "Round-2 families: size ladder = LPs built by oracles/lp_planted.py around a planted primal-dual pair / feasible point + ray / "
+                "Farkas vector from the seed string in the case, n + m ~ 30..200 (thorough: ..260), solve_lp on all and solve_lp_interior on the "
+                "listed share; random-exact = unplanted packing / cone (60-100 % zero rhs) / mixed LPs up to n + m ~ 85 (thorough ~100) with the exact "
+                "oracle; history = sequences of calls on one set of list objects rewritten in place, one evaluation per call (+1 per "
+                "fresh-process comparison); numerics = gen_case LPs rescaled by powers of two / shifted by dyadic gaps. For those families "
+                "non-trivial is decided from the data by the equivalent rule (some b_i < 0 or some cost coefficient improving at x = 0) and "
+                "distinct is by SHA-1 of (minimize, c, A, b)")
     ctx.assumptions += [
         "domain: m >= 1, n >= 1, finite int/float data (check_matrix_dims rejects an empty A); default eps of both solvers",
         "tau = 1e-6*(1+max|data|) for solve_lp; tau' = 10*eps*(n+m+||x*||+||y*||)+1e-9 for solve_lp_interior OPTIMAL (DESIGN C03); "
@@ -593,25 +1183,57 @@ def run(ctx: Ctx):
         "only the FEASIBLE residual clause allows the unavoidable double-precision evaluation error (n+2)*2^-52*(sum|a_ij x_j|+|b_i|) per row, "
         "which matters solely for diverging iterates of size ~1e150+ on unbounded LPs",
         "bounded: nothing is claimed beyond the enumerated / sampled inputs",
+        "size ladder / history: solve_lp runs under a CPU-time (ITIMER_VIRTUAL) budget of 40 s (n+m <= 70), 150 s (<= 135), 600 s (larger) - at "
+        "least 20x what the unchanged tree needs; a budget hit is excused like MAX_ITER and counted in solve_lp_cpu_budget_excused (0 on /repo)",
+        "numerics: only b and the cost row carry dyadic gaps (2^-16..2^-40), only in the directions that cannot create an LP whose verdict hinges on "
+        "a margin below the solver's absolute eps (1e-10); A is rescaled by exact powers of two only - near-parallel rows or data of size 1e-10 are "
+        "outside 'well-scaled LPs (integer or small rational data)'",
+        "history: a verdict that differs between this process and a fresh interpreter is filed under ensures:verdict-is-a-function-of-the-LP "
+        "(a consequence of the three 'exactly when' clauses); bitwise differences that stay within tau are only counted",
     ]
     ctx.trusted += [
         "oracles/lp_exact.py: check_certificate (weak duality / Farkas / recession ray in Fraction arithmetic); the Fraction simplex that "
         "produces the certificates is not trusted (every answer is re-validated), cross-checked against vertex enumeration by its self test",
         "fractions.Fraction, float -> Fraction conversion",
+        "oracles/lp_planted.py is NOT trusted for verdicts: each planted certificate is validated by check_certificate against the generated data "
+        "before use (and again from the JSON strings on replay)",
     ]
 
 
 def replay(rec) -> int:
     use_repo()
     case = rec["case"]
+    if case.get("fn") == "history":
+        steps = case["steps"]
+        print(f"replay history of {len(steps)} calls on one set of argument objects ({case.get('gen')}):")
+        for k, st in enumerate(steps):
+            print(f"  step {k + 1}: {st['fn']}({'min' if st['minimize'] else 'max'} c={_short(st['c'])} A={_short(st['A'])} b={_short(st['b'])} opts={st['opts']})")
+        viol, cnt, _ = play_history(steps, compare_at={len(steps) - 1})
+        for k, v in sorted(cnt.items()):
+            print(f"  {k}: {v}")
+        for ob, k, det in viol:
+            print("  violated:", ob, "::", det)
+        if not viol:
+            print("  no violation")
+        return 1 if viol else 0
     c, A, b, mn, opts = case["c"], case["A"], case["b"], case["minimize"], case.get("opts") or {}
-    orc = oracle(c, A, b, mn)
-    print(f"replay {case['fn']}({'min' if mn else 'max'} c={c} A={A} b={b} opts={opts}); oracle: {orc['status']} "
-          f"objective={orc['objective']} certificate={_cert_str(orc)}")
+    if "oracle" in case:  # planted / stored certificate: re-validated against the data, nothing is taken on trust
+        orc = cert_from_json(c, A, b, mn, case["oracle"])
+        how = "certificate from the replay file, re-validated"
+    else:
+        orc = oracle(c, A, b, mn)
+        how = "exact simplex"
+    print(f"replay {case['fn']}({'min' if mn else 'max'} c={_short(c)} A={_short(A)} b={_short(b)} opts={opts}) family={case.get('family', 'small-scope')} "
+          f"gen={case.get('gen')}; oracle ({how}): {orc['status']} objective={orc['objective']} certificate={_short(_cert_str(orc), 600)}")
     bad, st = (eval_simplex if case["fn"] == "solve_lp" else eval_interior)(c, A, b, mn, opts, orc)
     print("solver status:", st)
     for ob, det in bad:
-        print("  violated:", ob, "::", det)
+        print("  violated:", ob, "::", _short(det, 1200))
     if not bad:
         print("  no violation")
     return 1 if bad else 0
+
+
+def _short(x, k=400):
+    t = x if isinstance(x, str) else json.dumps(x)
+    return t if len(t) <= k else t[: k // 2] + f" ...[{len(t)} chars]... " + t[-k // 4:]
